@@ -60,3 +60,21 @@ Theorem c12_xml_written_is_readable :
   wf_content gzip gunzip c = true -> bytes_ok ks = true ->
   parse_events gunzip (dump_events gzip c ks) ks = Ok c.
 Proof. exact parse_dump_roundtrip. Qed.
+
+(* ---------------- END TO END (format/SaveOpen.v): save never panics or hangs; and whenever it returns
+   a file for a content in the domain, open returns that database (c03_save_open_identity) ---------------- *)
+From KP Require Import SaveOpen.
+Theorem c12_save_never_panics_never_hangs :
+  forall (sha256 sha512 : bytes -> bytes) (hmac256 : bytes -> bytes -> bytes)
+         (kdf : kdfcfg -> bytes -> bytes -> Kdbx4.res bytes)
+         (outer_enc : ocipher -> bytes -> bytes -> bytes -> Kdbx4.res bytes)
+         (compress : compression -> bytes -> Kdbx4.res bytes)
+         (gzip : bytes -> bytes) (render : list ev -> bytes) (keystream : icipher -> bytes -> bytes)
+         (db : database) (d : draws) (vd : vdict) (elements : outcome kerr (list bytes)),
+  good elements ->
+  (forall k s c, good (kdf k s c)) ->
+  (forall z p, good (compress z p)) ->
+  (forall c k iv p, good (outer_enc c k iv p)) ->
+  (forall n, save_model sha256 sha512 hmac256 kdf outer_enc compress gzip render keystream db d vd elements <> Panic n) /\
+  save_model sha256 sha512 hmac256 kdf outer_enc compress gzip render keystream db d vd elements <> OutOfFuel.
+Proof. exact save_model_never_panics_never_hangs. Qed.
